@@ -13,6 +13,9 @@ UNITS_LOCAL = {"C20": [
               "x fill pattern byte[p] = (p*k + t + 91*(p>>8)) mod 256 for t in 0..255, k = 37 (thorough k in {37,255}) "
               "x placement {heap block of exactly w*h pixels, the same pixels inside a block with 64 filler bytes on each side}; "
               "the file is decoded by the harness (magic, dimensions, maxval/scale, payload length, every selected component; rows bottom-up for PPM/PGM, as given for PFM). "
+              "plus wide/tall images (one side up to 4097); plus call SEQUENCES in one forked process on one thread (state carried between calls): the same writer with every ordered pair "
+              "(thorough: also every ordered triple) of the sizes {1x1,2x1,4x1,1x3,3x2,4x4,17x2} - equal, increasing and decreasing widths/heights - and every ordered pair of two different writers "
+              "(thorough: f1,f2,f1) on 3 size patterns, both placements; every file of a sequence is decoded. "
               "distinct = distinct file contents",
          assumptions=["writePGM's grey value is component 3 (the top byte) of the RGBA8 pixel, as the writer's 1-of-4 component selection does; "
                       "writePPM takes components 0..2, writePFM<vec3fa> components 0..2 of 4",
@@ -24,6 +27,8 @@ UNITS_LOCAL = {"C20": [
          rule="histories = (API in {TraceRecorder object + ThreadEventList methods, global functions}) x (processName null / non-null) x (thread names set / not set) x per-thread event words: "
               "(0) nothing recorded at all; (1) every well-nested word over {begin,end,marker,counter} (end only inside an open begin; open begins may remain) of length <= 5 (thorough 6), "
               "recorded by T in {1,2,8} (thorough 1..8) threads where thread k records word (i + k*stride) mod N, so every word is seen in every thread position (quick, and thorough for T >= 3: thread naming - and for thorough T >= 3 also processName - alternates with the case index instead of being crossed); "
+              "(1s) SEQUENTIAL threads (start, record, join, then the next; a finished thread's std::thread::id is then reused, counted as thread_id_reused_groups): T in {2,3} (thorough 2..4) threads over every word of length <= 4 (thorough 5), both APIs, names set/not set, "
+              "and 4 triples whose concatenation crosses a chunk edge; threads that printed the same id are one thread for the oracle: the id must carry the concatenation of their events; "
               "(2) chunk edges: lengths {0,1,8191,8192,8193,16385} of the periodic pattern lead*marker (begin^d marker counter end^d)* for depth d in 0..4, lead 0 (thorough: for 1 and 2 threads every lead < 2d+2, i.e. every phase of the pattern against the 8192-event chunk), "
               "T in {1,2,8} (thorough 1..8) threads with thread k using length index li+k, depth d+k, lead o+k. Thread 0 is the process's main thread, the others are std::threads joined before saveLog; every history runs in a forked child. "
               "The log is parsed by a strict RFC 8259 parser; per thread (matched through the thread_name metadata) the non-metadata, non-built-in events must equal the recorded ones (phase, name, category when given, counter value) in order. "
